@@ -219,22 +219,24 @@ class Pattern:
             When implementing new Patterns, this may require storing some state variables
             to be stored.
         """
-        fields = vars(self)
-        for name, field in list(fields.items()):
-            if isinstance(field, Pattern):
-                field.reset()
+        def reset_value(value):
+            if isinstance(value, Pattern):
+                value.reset()
             #------------------------------------------------------------------------
             # look through list items and reset anything in here too
-            # (needed to reset items in PConcat)
+            # (needed to reset items in PConcat), including patterns inside
+            # tuples and nested lists, which Pattern.value resolves too
             #------------------------------------------------------------------------
-            elif isinstance(field, list):
-                for item in field:
-                    if isinstance(item, Pattern):
-                        item.reset()
-            elif isinstance(field, dict):
-                for item in list(field.values()):
-                    if isinstance(item, Pattern):
-                        item.reset()
+            elif isinstance(value, (list, tuple)):
+                for item in value:
+                    reset_value(item)
+            elif isinstance(value, dict):
+                for item in list(value.values()):
+                    reset_value(item)
+
+        fields = vars(self)
+        for name, field in list(fields.items()):
+            reset_value(field)
 
     def append(self, other: Pattern) -> PConcatenate:
         """
